@@ -1,0 +1,12 @@
+//go:build verif
+
+package level
+
+// Thin wrappers giving the verification harness access to the unexported size rules.
+// Compiled only with -tags verif.
+
+func VerifCalcBitStorageSize(bits, length int) int { return calcBitStorageSize(bits, length) }
+
+func VerifCalcBitsPerValue(length, longs int) int { return calcBitsPerValue(length, longs) }
+
+func (b *BitStorage) VerifCalcIndex(n int) (c, o int) { return b.calcIndex(n) }
